@@ -8,9 +8,11 @@ UNITS = C01.UNITS
 LEVEL = C01.LEVEL; TECHNIQUE = C01.TECHNIQUE; FUNCTION_PATTERNS = C01.FUNCTION_PATTERNS; VALIDATE_VECTORS = 100
 def validation_queries(tier): return C01.validation_queries(tier)[:2]
 def queries(tier):   # scenarios that reach every policy call site: first slab, large map, large unmap (free and moving realloc), in-place realloc, incl. map failures
-    return C01.select(tier, lambda t: t['pol'] in (1, 3) and (t['faults'] or 1 in t['ops'] or 3 in t['ops']) and t['size0'] in (16, 64, 65, 129, 24))
-LEVEL_TEXT = ('PARTIAL: decides only the lock-discipline sentence of C05 — Policy::map/unmap/poison are invoked while the calling thread holds none of the pool mutexes, no mutex is left held when a call returns, '
-              'and no call takes a second pool mutex while holding one (so no lock-order deadlock) — on the enumerated sequential scenarios. The first sentence (linearizability, no data race, no block handed out twice under '
-              'concurrent calls) is NOT decided: CBMC rejects pointer-typed shared writes from threads and the flat-memory model was not affordable for two-thread histories; see DESIGN.md section 7.')
+    return C01.select(tier, lambda t: t['lockset'] or (t['pol'] in (1, 3) and (t['faults'] or 1 in t['ops'] or 3 in t['ops']) and t['size0'] in (16, 64, 65, 129, 24)))
+LEVEL_TEXT = ('PARTIAL: decided on the enumerated sequential scenarios are (a) the lock-discipline sentence of C05 — Policy::map/unmap/poison are invoked while the calling thread holds none of the pool mutexes, no mutex is '
+              'left held when a call returns, no call takes a second pool mutex while holding one (no lock-order deadlock) — and (b) a lock-set discipline on EVERY load/store of the translated pool code: bucket state and the mutable '
+              'header of a published slab are only touched under that bucket\'s mutex, the used-page counter only under the tree mutex (an Eraser-style sufficient condition for "no data race on pool state", which is a property of '
+              'code paths, not of schedules). NOT decided: that concurrent calls behave like some sequential order (interleavings between the several critical sections of different calls are not explored; CBMC rejects '
+              'pointer-typed shared writes from threads, see DESIGN.md A.4).')
 ASSUMPTIONS = C01.ASSUMPTIONS + ['instrumented mutex: lock() asserts the mutex is free and that the caller holds no other pool mutex; a held-count is asserted 0 at every policy callback and after every API call']
 OUTSIDE = C01.OUTSIDE + ['every thread interleaving (schedules of 2-8 threads): not decided by this check']
